@@ -254,6 +254,32 @@ impl Flavour for Grown {
         Some(&self.0)
     }
 }
+/// flavour 7: the bitmap every DEFAULT constructor of the crate creates (`MmapRegion::new`, `from_file`, `build`,
+/// `GuestMemoryMmap::<AtomicBitmap>::from_ranges` ...): `<AtomicBitmap as NewBitmap>::with_len(size)`, one bit per HOST page
+/// (sysconf(_SC_PAGE_SIZE), 4096 on this host; the case carries ps = 4096 and the decoder insists on it)
+pub struct WithLenBm(AtomicBitmap);
+impl<'a> WithBitmapSlice<'a> for WithLenBm {
+    type S = RefSlice<'a, AtomicBitmap>;
+}
+impl Bitmap for WithLenBm {
+    fn mark_dirty(&self, o: usize, l: usize) {
+        self.0.mark_dirty(o, l)
+    }
+    fn dirty_at(&self, o: usize) -> bool {
+        self.0.dirty_at(o)
+    }
+    fn slice_at(&self, o: usize) -> RefSlice<'_, AtomicBitmap> {
+        self.0.slice_at(o)
+    }
+}
+impl Flavour for WithLenBm {
+    fn make(size: usize, _ps: usize) -> Self {
+        WithLenBm(<AtomicBitmap as vm_memory::bitmap::NewBitmap>::with_len(size))
+    }
+    fn inner(&self) -> Option<&AtomicBitmap> {
+        Some(&self.0)
+    }
+}
 impl Flavour for ArcBm {
     fn make(size: usize, ps: usize) -> Self {
         ArcBm(Arc::new(AtomicBitmap::new(size, NonZeroUsize::new(ps).unwrap())))
@@ -298,6 +324,7 @@ fn exec(case: &[Tok]) -> Vec<Tok> {
         4 => run::<OptNone>(case, nreg),
         5 => run::<Probe>(case, nreg),
         6 => run::<Grown>(case, nreg),
+        7 => run::<WithLenBm>(case, nreg),
         _ => run::<Unit>(case, nreg),
     }
 }
@@ -731,8 +758,9 @@ fn pick_near(rng: &mut Rng, pivots: &[u64]) -> u64 {
 fn gen_fault(rng: &mut Rng, tier: Tier, emit: &mut dyn FnMut(Vec<Tok>)) {
     let ncases = if tier == Tier::Quick { 1500 } else { 30_000 };
     for _ in 0..ncases {
-        let flavour = *rng.pick(&[1u64, 1, 5, 5, 6, 6, 2, 3, 4, 0]);
+        let flavour = *rng.pick(&[1u64, 1, 5, 5, 6, 6, 2, 3, 4, 0, 7, 7]);
         let ps = *rng.pick(&[64u64, 100, 512, 1024, 4096, 4096, 5000, 8192]);
+        let ps = if flavour == 7 { 4096 } else { ps };
         let size = *rng.pick(&[4097u64, 4200, 8192, 8193, 12288, 16000, 20000]) + rng.below(3);
         let start = *rng.pick(&[0u64, 0x1000, 0x7fff_f000]);
         let mut case = vec![n(0u8), n(1u8), Tok::of_u64s(&[start, size, ps, flavour])];
@@ -792,12 +820,13 @@ fn gen(rng: &mut Rng, tier: Tier, emit: &mut dyn FnMut(Vec<Tok>)) {
     gen_fault(rng, tier, emit);
     let ncases = if tier == Tier::Quick { 8000 } else { 120_000 };
     for _ in 0..ncases {
-        let flavour = *rng.pick(&[1u64, 1, 5, 5, 6, 6, 2, 3, 4, 0]);
+        let flavour = *rng.pick(&[1u64, 1, 5, 5, 6, 6, 2, 3, 4, 0, 7]);
         let nreg = 1 + rng.below(3) as usize;
         let mut geos: Vec<(u64, u64, u64)> = Vec::new();
         let mut next = *rng.pick(&[0u64, 0x1000, 0x7fff_f000]);
         for _ in 0..nreg {
             let ps = *rng.pick(&[1u64, 2, 3, 7, 8, 64, 4096, 4096, 0]);
+            let ps = if flavour == 7 { 4096 } else { ps };
             let base_sizes = [1u64, 2, 5, 63, 64, 65, 130, 200];
             let (ps, size) = if ps == 0 {
                 let size = *rng.pick(&base_sizes);
